@@ -192,15 +192,17 @@ def exec_module(case, ctx, alias_mode, future, observe):
     flags = __future__.annotations.compiler_flag if future else 0
     run = lambda src: exec(compile(src, name + ".py", "exec", flags=flags, dont_inherit=True), mod.__dict__)
     try:
-        run(P.MODULE_IMPORTS)
+        alias_src = "N = %s\n" % P.render(case["alias"])
+        srcs = [step_src(i, st, alias_mode) for i, st in enumerate(case["steps"])]    # (registers function fields)
+        run(P.module_prelude(alias_src + "".join(srcs)))
         if alias_mode:
             try:
-                run("N = %s\n" % P.render(case["alias"]))
+                run(alias_src)
             except Exception as ex:  # noqa
                 mod.__dict__["N"] = None
                 mod.__dict__["_alias_error"] = ex
-        for i, st in enumerate(case["steps"]):
-            run(step_src(i, st, alias_mode))
+        for i, src in enumerate(srcs):
+            run(src)
             observe(i, mod)
     finally:
         sys.modules.pop(name, None)
@@ -308,7 +310,7 @@ def report(rep, case, future, i, j, aspect, detail, what, cands, obs=None):
         "expression written out", aspect, repr(detail)[:300],
         ("from __future__ import annotations\n" if future else "") + alias_src),
         {"alias_case": {"alias": s0, "steps": steps}, "future": future, "victim": i, "after": j, "mode": what,
-         "candidates": cands, "python": P.MODULE_IMPORTS + alias_src})
+         "candidates": cands, "python": P.module_prelude(alias_src) + alias_src})
 
 
 def replay(obj, ctx, c13):
